@@ -109,3 +109,8 @@ func mustJSON(v interface{}) json.RawMessage {
 	}
 	return b
 }
+
+// WorkerOrdinal distinguishes the worker processes of one check (the index of
+// the first run of the process): checks that compare results across fresh
+// processes use it to start each process with a different request order.
+var WorkerOrdinal int
